@@ -25,7 +25,7 @@ LEVEL = 'exploration'
 SHARDS = {'quick': 16, 'thorough': 16}
 FLOOR = {'quick': 800, 'thorough': 3000}
 REQUIRED_MONITORS = {'sites-checked': 1200, 'opt-outs-checked': 150}
-RULE = ('a case = (site kind, wrapper, hostile value, neighbours); 21 site kinds {element text, "attr", \'attr\', two '
+RULE = ('a case = (site kind, wrapper, hostile value, neighbours); 24 site kinds {element text, "attr", \'attr\', two '
         'interpolations in one attribute, tal:attributes onto new / "static" / \'static\' attribute, dictionary attribute value, '
         'comment, tal:content, tal:replace, string: in content, string: in attribute, ${} inside i18n:translate, i18n:name '
         'block, message object with hostile translation, i18n:attributes value} x 6 wrappers x 30 hostile values (each of & < > '
@@ -121,6 +121,9 @@ SITES = {
     'replace': ('<u>' + A + '<p tal:replace="v">x</p>' + B + '</u>', 'text'),
     'string-content': ('<p tal:content="string:' + A + '${v}' + B + '">x</p>', 'text'),
     'string-attr': ('<p tal:attributes="a string:' + A + '${v}' + B + '">t</p>', ('attr', 'a', '"')),
+    'string-in-interp': ('<p>${string:' + A + '${v}' + B + '}</p>', 'text'),
+    'string-in-attr-interp': ('<p a="${string:' + A + '${v}' + B + '}">t</p>', ('attr', 'a', '"')),
+    'pipe-string-in-interp': ('<p>${nothing.x | string:' + A + '${v}' + B + '}</p>', 'text'),
     'in-translate': ('<p i18n:translate="">' + A + '${v}' + B + '</p>', 'text'),
     'i18n-name': ('<p i18n:translate="">' + A + '<b i18n:name="n" tal:omit-tag="">${v}</b>' + B + '</p>', 'text'),
     'i18n-name-content': ('<p i18n:translate="">' + A + '<b i18n:name="n" tal:replace="v">x</b>' + B + '</p>', 'text'),
